@@ -35,6 +35,10 @@ def http_scenarios(quick):
     scripts.append([R(429, 0), R(503), R(500)])
     scripts.append([R(500), R(err="conn"), R(err="conn")])
     forced += [(si, bi, rc, 8, "none", via) for si in (4, len(scripts) - 2, len(scripts) - 1) for bi in (0, 3) for rc in ("background", "values") for via in ("roundtripper", "request")]
+    # always: a Timeout that fires while the server is still thinking, with and without a request body (C07 through the adapter)
+    scripts.append([R(200, mode="slow3")])
+    pols.append(["timeout1"])
+    forced += [(len(scripts) - 1, bi, rc, len(pols) - 1, ec, via) for bi in (0, 1, 3, 4, 5) for rc in ("background", "values") for ec in ("none", "values") for via in ("roundtripper", "request")]
     # always: an upload that cannot be rewound for the second attempt (the execution ends with that error; nothing may be left behind)
     bodies.append(("seekfail", 64))
     forced += [(si, len(bodies) - 1, rc, pi, ec, via) for si in (2, 3) for rc in ("background", "values") for pi in (0, 1) for ec in ("none", "values") for via in ("roundtripper", "request")]
@@ -76,7 +80,10 @@ def seek_reuse(sc, tr):
     return ("retry" in sc["policies"] or "retrybo" in sc["policies"]) and 1 < got < want
 
 
-def run_http(ctx, only_leaks=False):
+TIMEOUT_CLAUSES = {"timeoutPrompt", "attemptCancelled"}      # C07 through the HTTP adapter: reported by C07's check
+
+
+def run_http(ctx, only_leaks=False, only=None):
     binary = vlib.build_harness(ctx)
     quick = ctx.tier == "quick"
     scs = http_scenarios(quick) + grpc_scenarios()
@@ -129,7 +136,10 @@ def run_http(ctx, only_leaks=False):
         ctx.traces += len(scs)
     leak_clauses = {"mergerLeak", "responseNotClosed", "nilInnerSharesDefaultTransport"}
     for (clause, ln) in sorted(viols):
-        if only_leaks != (clause in leak_clauses):
+        if only is not None:
+            if clause not in only:
+                continue
+        elif only_leaks != (clause in leak_clauses) or clause in TIMEOUT_CLAUSES:
             continue
         sc, tr = scen_of(ln)
         kind = "grpc" if sc["grpc"] else "http"
